@@ -378,6 +378,14 @@ func (s *grpcServer) Write(srv bytestream.ByteStream_WriteServer) error {
 		for {
 			req, err := srv.Recv()
 			if err == io.EOF {
+				if firstIteration {
+					// The client closed the stream without sending anything:
+					// no Put was started, so nobody would ever answer.
+					recvResult <- status.Error(codes.InvalidArgument,
+						"no WriteRequest received")
+					return
+				}
+
 				if cmp == casblob.Identity && resp.CommittedSize != size {
 					msg := fmt.Sprintf("Unexpected amount of data read: %d expected: %d",
 						resp.CommittedSize, size)
